@@ -81,6 +81,10 @@ FolAfterDrop(fo, s) == [n \in Nodes |-> IF fo[n] # NULL /\ fo[n].stream # 0 /\
                                            ~(\E l \in Nodes : s[<<l, n>>] # NULL /\ s[<<l, n>>].id = fo[n].stream)
                                         THEN [fo[n] EXCEPT !.stream = 0] ELSE fo[n]]
 
+\* applying log entries Len(applied)+1 .. k of the node's own WAL to its DB (replay always resumes after
+\* the DB's commit offset, whatever the log holds below it)
+Applied(ap, w, k) == IF k > Len(ap) THEN ap \o SubSeq(w, Len(ap) + 1, k) ELSE ap
+
 NoParkedSync(n) == (lead[n] # NULL => lead[n].cbq = {}) /\ (fol[n] # NULL => fol[n].parked = {})
 Busy(n) == lead[n] # NULL /\ lead[n].busy
 
@@ -252,13 +256,13 @@ Fig8At(n, w, k, t) == \E i \in 1..k : \E m \in Nodes : \E j \in 1..Len(w[m]) :
 \* assign the node/wire/history variables from an attach result; the leader record gets busy = b.
 \* fin: the quorum on the election head is there already, BecomeLeader completes in the same step
 \* (applyAllEntriesIntoDB, status = LEADER)
-ApplyAttach(n, x, b, dropOwn, fin) ==
+ApplyAttach(n, x, b, dropOwn, fin, extraKf) ==
     /\ wal' = x.wal /\ phantom' = x.phantom /\ synced' = x.synced /\ ctrl' = x.ctrl /\ term' = x.term
     /\ status' = IF fin THEN [x.status EXCEPT ![n] = "LEADER"] ELSE x.status
     /\ lead' = [x.lead EXCEPT ![n] = [x.ld EXCEPT !.busy = b /\ ~fin]]
     /\ LET s1 == DropStreamsOf(x.truncated \cup (IF dropOwn THEN {n} ELSE {}), streams)
        IN /\ streams' = s1 /\ fol' = FolAfterDrop(x.fol, s1)
-    /\ applied' = IF fin THEN [applied EXCEPT ![n] = Prefix(x.wal[n], x.synced[n])] ELSE applied
+    /\ applied' = IF fin THEN [applied EXCEPT ![n] = Applied(@, x.wal[n], x.synced[n])] ELSE applied
     /\ leaders' = IF fin THEN [leaders EXCEPT ![x.term[n]] = @ \cup {n}] ELSE leaders
     \* attaching a follower that already holds entries can advance the commit offset at once
     /\ hcommit' = hcommit \cup {[off |-> i, e |-> x.wal[n][i], by |-> x.term[n]] :
@@ -266,7 +270,7 @@ ApplyAttach(n, x, b, dropOwn, fin) ==
     /\ fence' = [m \in Nodes |-> IF m \in x.truncated \/ (fin /\ m = n) THEN NULL ELSE fence[m]]
     \* "truncBelowDb" is a model-only observation (not reproduced on the code, never reported): a
     \* follower is truncated below its own DB commit offset, e.g. by a leader whose WAL starts after a snapshot
-    /\ kf' = kf \cup (IF x.below THEN {"truncBelowDb"} ELSE {})
+    /\ kf' = kf \cup extraKf \cup (IF x.below THEN {"truncBelowDb"} ELSE {})
                 \cup (IF fin /\ Fig8At(n, x.wal, x.synced[n], x.term[n]) THEN {"fig8"} ELSE {})
 
 ----------------------------------------------------------------------------
@@ -300,7 +304,7 @@ ClientCancel(n) ==
 LeaderCommitEffects(n, ld, oldCommit) ==
     LET serving == status[n] = "LEADER" /\ ~ld.busy
         done == {w \in ld.wait : w <= ld.commit}
-    IN /\ applied' = [applied EXCEPT ![n] = IF serving /\ done # {} /\ Max(done) > Len(@) THEN Prefix(wal[n], Max(done)) ELSE @]
+    IN /\ applied' = [applied EXCEPT ![n] = IF serving /\ done # {} THEN Applied(@, wal[n], Max(done)) ELSE @]
        /\ acked' = IF serving THEN acked \cup {[v |-> wal[n][o].v, off |-> o, t |-> term[n]] : o \in done} ELSE acked
        /\ hcommit' = hcommit \cup {[off |-> i, e |-> wal[n][i], by |-> term[n]] : i \in (oldCommit + 1)..ld.commit}
 
@@ -348,7 +352,7 @@ WalSync(n) ==
                 /\ fol' = [fol EXCEPT ![n] = [@ EXCEPT !.parked = {}, !.sig = IF canAck THEN FALSE ELSE @]]
                 \* the apply round is signalled by the sync goroutine of the live stream only: a goroutine whose
                 \* stream was closed meanwhile leaves without acknowledging and without signalling
-                /\ applied' = [applied EXCEPT ![n] = IF canAck /\ upto > Len(@) THEN Prefix(wal[n], upto) ELSE @]
+                /\ applied' = [applied EXCEPT ![n] = IF canAck THEN Applied(@, wal[n], upto) ELSE @]
                 /\ UNCHANGED <<lead, acked, hcommit, kf>>
     /\ UNCHANGED <<up, ctrl, status, term, wal, phantom, dur, sid, coVars, nwrites, leaders, fence, budget>>
 
@@ -490,7 +494,7 @@ DeliverAck(f, l) ==
            \* (applyAllEntriesIntoDB, status = LEADER) while still holding the controller lock
            fin == ld.busy /\ ld1.commit >= ld.elHead.o
        IN /\ IF fin
-             THEN /\ applied' = [applied EXCEPT ![l] = Prefix(wal[l], synced[l])]
+             THEN /\ applied' = [applied EXCEPT ![l] = Applied(@, wal[l], synced[l])]
                   /\ status' = [status EXCEPT ![l] = "LEADER"]
                   /\ leaders' = [leaders EXCEPT ![term[l]] = @ \cup {l}]
                   /\ hcommit' = hcommit \cup {[off |-> i, e |-> wal[l][i], by |-> term[l]] : i \in 1..synced[l]}
@@ -583,7 +587,10 @@ CoBecomeLeader(n, R) ==
                /\ UNCHANGED <<nodeVars, wireVars, hcommit, fence, kf, leaders>>
           ELSE LET x == BLBegin(n, meta.term, rf, fm)
                    fin == x.ok /\ (~WaitElectionHead \/ x.ld.commit >= x.ld.elHead.o)
-               IN /\ ApplyAttach(n, x, x.ok, ctrl[n] # "leader", fin)
+                   \* known finding (swap): a removed node counted for the fencing majority holds a longer log
+                   \* than the chosen leader; removed nodes are no candidates, so its entries may be lost
+                   stale == IF \E m \in R \cap meta.removed : HeadLess(RespHead(n), RespHead(m)) THEN {"swapStale"} ELSE {}
+               IN /\ ApplyAttach(n, x, x.ok, ctrl[n] # "leader", fin, stale)
                   /\ co' = [co EXCEPT !.phase = IF x.ok THEN "becoming" ELSE "failed", !.leader = n, !.fmap = fm]
                   /\ UNCHANGED <<up, dur, sid>>
     /\ ntr' = {}
@@ -612,7 +619,8 @@ CoElected ==
        /\ lead' = [n \in Nodes |-> IF n \in R THEN NULL ELSE lead[n]]
        /\ LET s1 == DropStreamsOf(R, streams) IN
           streams' = s1 /\ fol' = FolAfterDrop([n \in Nodes |-> IF n \in R THEN NULL ELSE fol[n]], s1)
-    /\ UNCHANGED <<up, sid, ntq, ntr, histVars>>
+       /\ fence' = [n \in Nodes |-> IF n \in R THEN NULL ELSE fence[n]]      \* a deleted replica has left the shard
+    /\ UNCHANGED <<up, sid, ntq, ntr, acked, nwrites, hcommit, leaders, kf, budget>>
 
 \* BecomeLeader fails for the coordinator (context expired / connection lost) while the node waits
 CoBecomeLeaderTimeout ==
@@ -644,7 +652,7 @@ CoRetryAdd(f) ==
                             fol |-> fol, lead |-> lead, truncated |-> {}, below |-> FALSE]
                      x == AttachAll(l, meta.term, {f}, x0)
                  IN IF x.ok
-                    THEN /\ ApplyAttach(l, x, FALSE, FALSE, FALSE)
+                    THEN /\ ApplyAttach(l, x, FALSE, FALSE, FALSE, {})
                          /\ co' = [co EXCEPT !.retry = @ \ {f}]
                          /\ UNCHANGED <<up, dur, sid>>
                     ELSE /\ UNCHANGED <<nodeVars, wireVars, co, hcommit, fence, kf, leaders>>
